@@ -79,6 +79,13 @@ def families(r):
                 g.budget = 4
                 g.loop_depth = 1
                 body.append(g.stmt(sc))
+        if r.chance(0.7):
+            # a `continue` (or `break`) that really executes, with a loop statement later in the same
+            # body that has not started yet when it does
+            kw = r.choice(["continue", "continue", "break"])
+            body.insert(r.randint(1, len(body)), f"if i{g.tag}0 % 2 == 0 {{ {kw} }}")
+            body.append(r.choice([f"for y{g.tag} in [1, 2] {{ {g.print_stmt(sc)} }}",
+                                  f"let w{g.tag} = 0 while w{g.tag} < 2 {{ w{g.tag} += 1 }}"]))
         src = "\n".join(defs) + f"\nlet i{g.tag}0 = 0 while True {{ while True {{ {' '.join(body)} }} }}"
         fams.append((f"genbody-{j}", src, False))
     return fams
